@@ -250,6 +250,17 @@ def corpus(rng):
           m(0x83, 61, 0), m(0x93, 62, 0), m(0x83, 72, 0), m(0x90, 60, 0), m(0x93, 64, 0), m(0x80, 60, 0), m(0x90, 61, 70), m(0x80, 61, 0), m(0x80, 61, 0),
           m(0x90, 62, 70)]
     cases.append({"cfg": full, "abs": [], "events": ev, "leds": allnames, "tag": "corpus-stray-release"})
+    # LED names the implementation's table does not know (the ISO keys "Key: #" and "Key: \\ (ISO)", logo, strips, misspellings) next to the LEDs
+    # of the keys that send the neighbouring codes (KEY_BACKSLASH): an unknown LED stays 'unavailable' whatever the keys do, and it never
+    # takes a known LED's place - with the unknown names after and before the known ones
+    bk = [{"sub": "", "code": 43, "note": 57, "off": 0}, {"sub": "", "code": 86, "note": 59, "off": 0}, {"sub": "", "code": 16, "note": 60, "off": 0}]
+    cfgb = cfg_with(STATE_ACTIONS)
+    cfgb["mappings"] = [{"name": "M0", "midi": bk, "analog": [], "dz": [], "defdz": [], "subs": []}]
+    known = [KEY_TO_LED[43], KEY_TO_LED[16]] + [KEY_TO_LED[59 + i] for i in range(10)]
+    evb = [k(43, 1), m(0x90, 57, 90), k(43, 0), m(0x93, 57, 90), m(0x90, 57, 0), k(86, 1), k(86, 0), m(0x83, 57, 0), k(16, 1), k(43, 1), k(16, 0), k(43, 0)]
+    cases.append({"cfg": cfgb, "abs": [], "events": evb, "leds": known + UNKNOWN_LEDS[:-1], "tag": "corpus-unknown-led-names"})
+    cases.append({"cfg": cfgb, "abs": [], "events": evb, "leds": UNKNOWN_LEDS[:-1] + known, "tag": "corpus-unknown-led-names"})
+    cases.append({"cfg": cfgb, "abs": [], "events": evb, "leds": ["Key: #", KEY_TO_LED[43], "Key: \\ (ISO)"] + known[1:], "tag": "corpus-unknown-led-names"})
     # held keys, transposition, mapping walk into "Control", channel walk to both ends
     ev = [k(16, 1), k(60, 1), k(60, 0), k(17, 1), k(16, 0)] + tap(61) * 2 + tap(62) * 3 + [k(18, 1)] + tap(64) + [k(18, 0), k(17, 0)] \
         + tap(65) + tap(67) * 16 + tap(66) * 16 + tap(68) + [k(59, 1), k(59, 0)]
